@@ -140,6 +140,8 @@ class NetModel:
             return node.value
         if isinstance(node, ast.Name) and node.id in self.consts:
             return self.consts[node.id]
+        if isinstance(node, ast.Name) and node.id in getattr(self, "_env", {}):
+            return self._env[node.id]
         return None
 
     def all_attr_facets(self) -> set:
@@ -164,30 +166,65 @@ class NetModel:
         fi = self.cached.get(propname) or self.props.get(propname)
         if fi is None:
             raise AnalysisError(f"no property Network.{propname}")
-        out: set = set()
-        for n in ast.walk(fi.node):
-            if not (isinstance(n, ast.Attribute) and _is_self(n.value)):
-                continue
-            a = n.attr
-            if a in self.graph_aliases:
-                out |= self._classify_graph_use(n, fi)
-            elif a in self.cached or a in self.props:
-                if a in self.nodeview_aliases:
-                    out |= self._classify_nodeview_use(n, fi)
-                else:
-                    sub = self.reads(a, _stack + (propname,))
-                    # a view used through iteration / call reads the edges; a view
-                    # merely returned is an alias
-                    if sub == {GRAPHOBJ} and self._is_view(a):
-                        out |= self._classify_view_use(n, fi)
-                    else:
-                        out |= sub
-            elif a in self.methods:
-                raise AnalysisError(
-                    f"property {propname} calls method {a}: not modelled"
-                )
+        out = self._reads_of(fi, _stack + (propname,), {})
         self._reads_cache[propname] = out
         return out
+
+    def _reads_of(self, fi: FunctionInfo, _stack: tuple, env: dict) -> set:
+        """facets read by the body of `fi`; `env` maps parameter names of a helper
+        method to the string constants it was called with"""
+        out: set = set()
+        saved = getattr(self, "_env", {})
+        self._env = env
+        try:
+            for n in ast.walk(fi.node):
+                if not (isinstance(n, ast.Attribute) and _is_self(n.value)):
+                    continue
+                a = n.attr
+                if a in self.graph_aliases:
+                    out |= self._classify_graph_use(n, fi)
+                elif a in self.cached or a in self.props:
+                    if a in self.nodeview_aliases:
+                        out |= self._classify_nodeview_use(n, fi)
+                    else:
+                        sub = self.reads(a, _stack)
+                        # a view used through iteration / call reads the edges; a view
+                        # merely returned is an alias
+                        if sub == {GRAPHOBJ} and self._is_view(a):
+                            out |= self._classify_view_use(n, fi)
+                        else:
+                            out |= sub
+                elif a in self.methods:
+                    call = parent(n)
+                    m = self.methods[a]
+                    if m.qualname in _stack or len(_stack) > 8:
+                        continue
+                    if self.effects_direct_writes(m):
+                        raise AnalysisError(
+                            f"{fi.qualname} calls the mutating method {a}: not modelled")
+                    sub_env = {}
+                    if isinstance(call, ast.Call) and call.func is n:
+                        params = [x.arg for x in m.node.args.args][1:]
+                        for pn, arg in zip(params, call.args):
+                            c = self.const_of(arg)
+                            if c is not None:
+                                sub_env[pn] = c
+                        for kw in call.keywords:
+                            if kw.arg and self.const_of(kw.value) is not None:
+                                sub_env[kw.arg] = self.const_of(kw.value)
+                    self._env = sub_env
+                    out |= self._reads_of(m, _stack + (m.qualname,), sub_env)
+                    self._env = env
+        finally:
+            self._env = saved
+        return out
+
+    def effects_direct_writes(self, m: FunctionInfo) -> bool:
+        for n in ast.walk(m.node):
+            if isinstance(n, ast.Call) and isinstance(n.func, ast.Attribute) and n.func.attr in NX_WRITE_TABLE \
+                    and self._is_graph_expr(n.func.value):
+                return True
+        return False
 
     def _is_view(self, propname: str) -> bool:
         fi = self.cached.get(propname) or self.props.get(propname)
